@@ -46,8 +46,9 @@ PROPS = {
     },
     "C06": {
         "engines": [DECODE],
-        "text": "Lean 4 theorems on the model of the generated unmarshal closure and of proto.Unmarshal's wrapper, for every schema and every byte string: C06_closure_no_panic, C06_no_panic (every slice expression is guarded), termination by construction plus C06_fuel_irrelevant (the record loop always progresses), C06_depth_bounded / C06_too_deep_rejected (recursion budget honoured: nesting beyond the protobuf-go limit is rejected), C06_post_usable (an accepted message can be sized and marshalled). Tied on every run by decoding well-typed and malformed streams (truncations, bit flips, adversarial lengths, deep nests) with the real code and the model.",
-        "note": "partial: the bound on allocated memory is measured on the real code (heap growth per input byte on adversarial inputs), not proved; Go stack growth is runtime behaviour; for malformed inputs only the outcome class panic / not-panic is an obligation (which malformed inputs are rejected is not part of the property)",
+        "lean_files": ["C06", "C06Alloc"],
+        "text": "Lean 4 theorems on the model of the generated unmarshal closure and of proto.Unmarshal's wrapper, for every schema and every byte string: C06_closure_no_panic, C06_no_panic (every slice expression is guarded), termination by construction plus C06_fuel_irrelevant (the record loop always progresses), C06_depth_bounded / C06_too_deep_rejected (recursion budget honoured: nesting beyond the protobuf-go limit is rejected), C06_post_usable (an accepted message can be sized and marshalled), C06_alloc_linear (memory requested is linear in the input length for every schema and input, accepted or rejected). Tied on every run by decoding well-typed and malformed streams (truncations, bit flips, adversarial lengths, deep nests) with the real code and the model.",
+        "note": "allocation: Properties/C06Alloc.lean proves a linear bound (192 bytes per input byte) on an allocation-accounting copy of the decoder model that is proved to compute the same values; the per-site costs are abstractions of Go allocation sizes, and heap growth is additionally measured on the real code on adversarial inputs; Go stack growth is runtime behaviour; for malformed inputs only the outcome class panic / not-panic is an obligation (which malformed inputs are rejected is not part of the property)",
         "design": "DESIGN.md §3 C06",
     },
     "C07": {
@@ -77,8 +78,7 @@ PROPS = {
     },
     "C10": {
         "engines": [REFLECT],
-        "lean": "C08",
-        "text": "Partial by construction: protobuf-go's generic algorithms talk to a message only through protoreflect.Message, so they cannot distinguish two machines related by the C08 refinement (C08_history_refines, re-checked here); the algorithms themselves (Equal, Clone, Merge, Reset, CheckInitialized, protojson/prototext) are trusted library code and are run on the real generated messages and on dynamicpb messages holding the same values, results compared on every check, including values reached only through the JSON/text parsers.",
+        "text": "Partial by construction: protobuf-go's generic algorithms talk to a message only through protoreflect.Message; Properties/C10.lean proves client parametricity (C10_client_parametric, _run, _pair): every deterministic client that chooses its next operation from the outputs seen so far (one message, or two as in Equal/Merge) produces equal traces and related final states on the model of the generated code and on the abstract reference machine; the algorithms themselves (Equal, Clone, Merge, Reset, CheckInitialized, protojson/prototext) are trusted library code and are run on the real generated messages and on dynamicpb messages holding the same values, results compared on every check, including values reached only through the JSON/text parsers.",
         "note": "partial: the library algorithms are not modelled; that they use only the reflection interface on pulsar types (ProtoMethods Merge/CheckInitialized are nil) is read off proto_message.go and exercised by the differential run",
         "design": "DESIGN.md §3 C10",
     },
@@ -96,7 +96,8 @@ PROPS = {
         "design": "DESIGN.md §3 C13",
     },
     "C19": {
-        "engines": [DESC],
+        "engines": [DESC, dict(REFLECT, args={"quick": ["-n", "60"], "thorough": ["-n", "800"]})],
+        "lean_files": ["C19", "C19Getters"],
         "text": "Partial. Proved (Lean 4, Properties/C19.lean): the flattened message order is depth-first parent-first, the message index is the position in it, and evaluating the generated Messages().ByName(..) parent chain resolves to the message itself. protoimpl.TypeBuilder, the registries and prototext are trusted protobuf-go code: on every run, for every generated package (corpus and checked-in) the registered file descriptor is compared with the request's (options included), every message/enum is looked up in the global registries and mapped back to its Go type, descriptor identity and Type/New/Zero are checked, getters are compared with Get on random values and nil receivers, Reset, String -> prototext.Unmarshal -> equal, enum String/Number/Descriptor.",
         "note": "partial: protobuf-go's type builder and registries are outside the model; nested message/enum declarations in corpus schemas are limited to map entries and the checked-in test3 nesting files",
         "design": "DESIGN.md §3 C19",
@@ -140,8 +141,10 @@ REQUIRED = {
             "C12_unrequested_file_produces_nothing", "C12_protoc_alone_emits_nothing", "C12_fast_emits",
             "C12_reserved_names_rewritten", "C12_reserved_oneof_names_rewritten", "C12_model_total"],
     "C13": ["C13_features_order_independent", "C13_message_index_order_independent", "C13_file_content_independent_of_cogenerated"],
-    "C19": ["C19_flatten_complete", "C19_flatten_parent_before_child", "C19_msgIndex_is_flatten_position", "C19_descPath_resolves_to_self"],
-    "C06": ["C06_closure_no_panic", "C06_no_panic", "C06_fuel_irrelevant", "C06_depth_bounded", "C06_too_deep_rejected", "C06_post_usable"],
+    "C19": ["C19_flatten_complete", "C19_flatten_parent_before_child", "C19_msgIndex_is_flatten_position", "C19_descPath_resolves_to_self",
+            "C19_getters_eq_get", "C19_getters_eq_get_nil", "C19_reset_is_empty"],
+    "C06": ["C06_closure_no_panic", "C06_no_panic", "C06_fuel_irrelevant", "C06_depth_bounded", "C06_too_deep_rejected", "C06_post_usable",
+            "C06_alloc_value_agrees", "C06_alloc_linear", "C06_alloc_linear_any_outcome"],
     "C07": ["C07_reads_frame", "C07_read_history_frame"],
     "C11": ["C11_reads_write_nothing", "C11_read_history", "C11_interleaving"],
     "C14": ["C14_unknown_step", "C14_known_never_unknown", "C14_reencode_unknown_last", "C14_discard"],
@@ -149,7 +152,7 @@ REQUIRED = {
             "C08_set_member_replaces", "C08_clear_inactive_member_noop", "C08_range_exactly_populated_once",
             "C08_mutable_view_writes_through"],
     "C09": ["C09_nil_reads", "C09_nil_reads_no_panic", "C09_nil_writes_panic", "C09_nil_codec", "C09_nil_refines_spec"],
-    "C10": ["C08_step_refines", "C08_history_refines"],
+    "C10": ["C10_client_parametric", "C10_client_parametric_run", "C10_client_parametric_pair"],
     "C02": ["C02_keyBytes_eq_tag", "C02_wireType_table", "C02_det_eq_reference"],
     "C03": ["C03_strict_implies_reference", "C03_decode_eq_reference", "C03_decode_eq_reference_fresh"],
     "C04": ["C04_keySize_eq", "C04_size_eq_len", "C04_size_eq_reference", "C04_index_reaches_zero", "C04_append"],
